@@ -90,7 +90,7 @@ package leanhelixterm
 
 // the commit callback handed to the protocol logic: the proof is generated from exactly the commits handed over, and the
 // host's callback receives that proof's bytes together with the very block that was committed
-//@ dep dynamic:interfaces.OnCommitCallback
+//@ dep freevar:leanhelixterm.CommitsToProof$1.onCommit
 //@   params ctx block blockProof
 //@   ensures true
 //@ func CommitsToProof$1
@@ -99,4 +99,4 @@ package leanhelixterm
 //@   requires forall i int :: 0 <= i && i < len(commitMessages) ==> commitMessages[i] != nil && commitMessages[i].content != nil
 //@   modifies *
 //@   assert before call GenerateLeanHelixBlockProof [O3.the-proof-is-generated-from-all-the-commits-handed-over] $commitMessages == commitMessages && $keyManager == keyManager
-//@   assert before call OnCommitCallback [O3.the-host-receives-the-committed-block-with-the-generated-proof] $block == block && $blockProof == proof.Raw()
+//@   assert before call onCommit [O3.the-host-receives-the-committed-block-with-the-generated-proof] $block == block && $blockProof == proof.Raw()
